@@ -111,6 +111,28 @@ mod proofs {
         }
     }
 
+    /// K1: serialising Push(w) yields the Push opcode byte followed by the 8 big-endian bytes of w, and parsing that back yields Push(w) (all words).
+    #[kani::proof]
+    #[kani::unwind(11)]
+    fn push_roundtrip() {
+        let w: i64 = kani::any();
+        let op = Op::Stack(asm::Stack::Push(w));
+        let (enc, n) = collect9(op.to_bytes().into_iter());
+        assert!(n == 9);
+        assert!(yaml_op(enc[0]) == Some((0, 8)));
+        let be = w.to_be_bytes();
+        let mut k = 0;
+        while k < 8 {
+            assert!(enc[1 + k] == be[k]);
+            k += 1;
+        }
+        let mut it = enc.into_iter().take(9);
+        match Op::try_from_bytes(&mut it) {
+            Some(Ok(back)) => assert!(back == op),
+            _ => assert!(false),
+        }
+    }
+
     /// K1: a truncated immediate (opcode with immediates followed by 0..7 bytes) is NotEnoughBytes; an empty input is None.
     #[kani::proof]
     #[kani::unwind(11)]
@@ -134,6 +156,45 @@ mod proofs {
                 }
             }
         }
+    }
+
+    fn pick(sel: u8, w: i64) -> Op {
+        match sel % 8 {
+            0 => Op::StateRead(asm::StateRead::KeyRange),
+            1 => Op::StateRead(asm::StateRead::KeyRangeExtern),
+            2 => Op::Access(asm::Access::ThisAddress),
+            3 => Op::Access(asm::Access::ThisContractAddress),
+            4 => Op::StateRead(asm::StateRead::PostKeyRange),
+            5 => Op::StateRead(asm::StateRead::PostKeyRangeExtern),
+            6 => Op::Stack(asm::Stack::Pop),
+            _ => Op::Stack(asm::Stack::Push(w)),
+        }
+    }
+    fn flag(op: &Op) -> u8 {
+        match yaml_index(op) {
+            Some(ix) => yaml_flag_by_index(ix),
+            None => 0,
+        }
+    }
+    /// K2 (bounded by the program length 7): analyze returns exactly the union of the effect flags of the ops, for every program over the
+    /// six effect ops, a plain op and a Push with an arbitrary immediate.
+    #[kani::proof]
+    #[kani::unwind(9)]
+    fn analyze_len_7() {
+        let sels: [u8; 7] = kani::any();
+        let w: i64 = kani::any();
+        let ops = [pick(sels[0], w), pick(sels[1], w), pick(sels[2], w), pick(sels[3], w), pick(sels[4], w), pick(sels[5], w), pick(sels[6], w)];
+        let len: usize = kani::any();
+        kani::assume(len <= 7);
+        let mut want = 0u8;
+        let mut i = 0;
+        while i < 7 {
+            if i < len {
+                want |= flag(&ops[i]);
+            }
+            i += 1;
+        }
+        assert!(effects::analyze(&ops[..len]).bits() == want);
     }
 
     macro_rules! bca {
